@@ -267,6 +267,10 @@ impl Iterator for ObjToCloningIter<'_> {
     type Item = NRes<Obj>;
 
     fn next(&mut self) -> Option<NRes<Obj>> {
+        #[cfg(betaveros_noulith_verif)]
+        if let Err(e) = crate::verif_hooks::tick() {
+            return Some(Err(e));
+        }
         match self {
             ObjToCloningIter::List(it) => it.next().cloned().map(Ok),
             ObjToCloningIter::Dict(it) => Some(Ok(key_to_obj(it.next()?.0.clone()))),
@@ -338,6 +342,10 @@ impl Iterator for MutObjIntoIter<'_> {
     type Item = NRes<Obj>;
 
     fn next(&mut self) -> Option<NRes<Obj>> {
+        #[cfg(betaveros_noulith_verif)]
+        if let Err(e) = crate::verif_hooks::tick() {
+            return Some(Err(e));
+        }
         match self {
             MutObjIntoIter::List(it) => it.next().map(Ok),
             MutObjIntoIter::Dict(it) => Some(Ok(key_to_obj(it.next()?.0))),
